@@ -216,17 +216,27 @@ def run(cfg, ctx):
                 w1 = make_world(tb, ready, outs, log)
                 w2 = make_world(tb2, list(reversed(ready)), [(o + 1) % 4 for o in outs], log2)
 
+                # a method that is only observed by this trigger: "the method is not called - another process can do that instead";
+                # that other process has it enabled, and the trigger must leave the enable alone
+                tb3 = TestbenchIO(AdapterTrans(o=[("y", 2)]))
+                log3 = []
+                w3 = make_world(tb3, ready, [(o + 2) % 4 for o in outs], log3)
+
                 def world(t, env):
                     w1(t, env)
                     w2(t, env)
+                    w3(t, env)
                     env[id(extra)] = (t + 5) % 8
 
                 sim = StubSim(world)
-                res = drive(_await(CallTrigger(sim).call(tb, x=3).sample(extra).call(tb2).sample(tb2)))
+                sim.set(tb3.adapter.en, 1)
+                res = drive(_await(CallTrigger(sim).call(tb, x=3).sample(extra).call(tb2).sample(tb2).sample(tb3)))
                 e1 = outs[0] if ready[0] else None
                 e2 = (outs[0] + 1) % 4 if ready[T - 1] else None
-                ok = (len(res) == 4 and (None if res[0] is None else res[0].y) == e1 and res[1] == 5 and (None if res[2] is None else res[2].y) == e2
-                      and (None if res[3] is None else res[3].y) == e2 and sim.env[id(tb.adapter.en)] == 0 and sim.env[id(tb2.adapter.en)] == 0)
+                e3 = (outs[0] + 2) % 4 if ready[0] else None
+                ok = (len(res) == 5 and (None if res[0] is None else res[0].y) == e1 and res[1] == 5 and (None if res[2] is None else res[2].y) == e2
+                      and (None if res[3] is None else res[3].y) == e2 and sim.env[id(tb.adapter.en)] == 0 and sim.env[id(tb2.adapter.en)] == 0
+                      and (None if res[4] is None else res[4].y) == e3 and sim.env[id(tb3.adapter.en)] == 1)
             if not ok:
                 fails.append({"ready": ready, "outs": outs, "result": repr(res), "cycles": log})
         except EndOfScript:
